@@ -15,7 +15,6 @@ import (
 	"crypto/ed25519"
 	"crypto/elliptic"
 	"crypto/rsa"
-	"crypto/sha256"
 	"fmt"
 	"io"
 	"log"
@@ -245,12 +244,15 @@ func TestVerifC05(t *testing.T) {
 			c.verify("grid", gk, h, a, msg, gsig)
 		}
 	}
-	if verifkit.Thorough() {
-		rk := verifkit.KeyByName("rsa2048")
+	// the same grid for an RSA and a DSA key: full in the thorough tier, the two bands hash<16 / alg<16 in the quick tier
+	for _, name := range []string{"rsa2048", "dsa"} {
+		rk := verifkit.KeyByName(name)
 		rsig := rk.Sign(4, msg)
 		for h := 0; h < 256; h++ {
 			for a := 0; a < 256; a++ {
-				c.verify("grid-rsa", rk, h, a, msg, rsig)
+				if verifkit.Thorough() || h < 16 || a < 16 {
+					c.verify("grid-"+rk.Kind, rk, h, a, msg, rsig)
+				}
 			}
 		}
 	}
@@ -334,11 +336,14 @@ func TestVerifC05(t *testing.T) {
 		}
 	}
 
-	// 4. typed nil keys: a mismatch is an error; a nil key of the declared type is outside the property (traced only).
+	// 4. typed nil and zero-valued keys: a mismatch is an error; a degenerate key of the declared type is outside the
+	//    property (traced only: the model says which of them reach a nil dereference inside the primitive).
 	for _, nk := range []struct {
 		kind string
+		tok  int
 		pub  crypto.PublicKey
-	}{{"rsa", (*rsa.PublicKey)(nil)}, {"dsa", (*dsa.PublicKey)(nil)}, {"ecdsa", (*ecdsa.PublicKey)(nil)}} {
+	}{{"rsa", 1, (*rsa.PublicKey)(nil)}, {"dsa", 1, (*dsa.PublicKey)(nil)}, {"ecdsa", 1, (*ecdsa.PublicKey)(nil)},
+		{"rsa", 2, &rsa.PublicKey{}}, {"dsa", 2, &dsa.PublicKey{}}, {"ecdsa", 2, &ecdsa.PublicKey{}}} {
 		for a := 0; a <= 4; a++ {
 			for _, sig := range [][]byte{gsig, {1, 2, 3}} {
 				var err error
@@ -347,10 +352,10 @@ func TestVerifC05(t *testing.T) {
 				})
 				R, S, _ := verifkit.LenientRS(sig)
 				got := outcome(err, p)
-				out.T(fmt.Sprintf("v %s 1 4 %d %s %s 0 %s", nk.kind, a, verifkit.IntStr(R), verifkit.IntStr(S), verifkit.Hex(sig)), got)
-				out.Count("class:nil-key")
+				out.T(fmt.Sprintf("v %s %d 4 %d %s %s 0 %s", nk.kind, nk.tok, a, verifkit.IntStr(R), verifkit.IntStr(S), verifkit.Hex(sig)), got)
+				out.Count("class:degenerate-key")
 				if verifkit.RFCSigKind[a] != nk.kind && got != "err" {
-					out.Fail(fmt.Sprintf("v nil-key mismatch key=%s alg=%d", nk.kind, a), "algorithm/key mismatch answered "+got)
+					out.Fail(fmt.Sprintf("v degenerate-key mismatch key=%s alg=%d", nk.kind, a), "algorithm/key mismatch answered "+got)
 				}
 			}
 		}
@@ -386,10 +391,11 @@ func (c *c05) policy(keys []*verifkit.SKey) {
 		bits int
 		p256 bool
 		pub  crypto.PublicKey
+		tok  int // 0 real, 1 typed nil pointer, 2 pointer to the zero value
 	}
 	var pks []pk
 	for _, k := range keys {
-		pks = append(pks, pk{k.Kind, k.Bits, k.P256, k.Pub})
+		pks = append(pks, pk{k.Kind, k.Bits, k.P256, k.Pub, 0})
 	}
 	for _, b := range []int{1, 2, 512, 1023, 1024, 2046, 2047, 2048, 2049, 3072, 4096, 8192} {
 		n := new(big.Int).Lsh(big.NewInt(1), uint(b-1))
@@ -397,15 +403,18 @@ func (c *c05) policy(keys []*verifkit.SKey) {
 		if b == 1 {
 			n = big.NewInt(1)
 		}
-		pks = append(pks, pk{"rsa", b, false, &rsa.PublicKey{N: n, E: 65537}})
+		pks = append(pks, pk{"rsa", b, false, &rsa.PublicKey{N: n, E: 65537}, 0})
 	}
-	pks = append(pks, pk{"rsa", 0, false, &rsa.PublicKey{N: big.NewInt(0), E: 3}})
+	pks = append(pks, pk{"rsa", 0, false, &rsa.PublicKey{N: big.NewInt(0), E: 3}, 0})
 	// a curve value that is a shallow copy of P-256's parameters compares equal to them
 	p256 := verifkit.KeyByName("p256").Pub.(*ecdsa.PublicKey)
 	cp := *elliptic.P256().Params()
-	pks = append(pks, pk{"ecdsa", 0, true, &ecdsa.PublicKey{Curve: &cp, X: p256.X, Y: p256.Y}})
-	pks = append(pks, pk{"other", 0, false, nil}, pk{"other", 0, false, "a string"}, pk{"other", 0, false, rsa.PublicKey{}},
-		pk{"other", 0, false, ed25519.PublicKey(nil)}, pk{"other", 0, false, 42})
+	pks = append(pks, pk{"ecdsa", 0, true, &ecdsa.PublicKey{Curve: &cp, X: p256.X, Y: p256.Y}, 0})
+	pks = append(pks, pk{"other", 0, false, nil, 0}, pk{"other", 0, false, "a string", 0}, pk{"other", 0, false, rsa.PublicKey{}, 0},
+		pk{"other", 0, false, ed25519.PublicKey(nil), 0}, pk{"other", 0, false, 42, 0})
+	// degenerate keys: typed nil pointers and pointers to the zero value (the constructor dereferences RSA/ECDSA ones)
+	pks = append(pks, pk{"rsa", 0, false, (*rsa.PublicKey)(nil), 1}, pk{"ecdsa", 0, false, (*ecdsa.PublicKey)(nil), 1}, pk{"dsa", 0, false, (*dsa.PublicKey)(nil), 1},
+		pk{"rsa", 0, false, &rsa.PublicKey{}, 2}, pk{"ecdsa", 0, false, &ecdsa.PublicKey{}, 2}, pk{"dsa", 0, false, &dsa.PublicKey{}, 2})
 	for _, allow := range []bool{false, true} {
 		ct.AllowVerificationWithNonCompliantKeys = allow
 		for _, k := range pks {
@@ -413,9 +422,16 @@ func (c *c05) policy(keys []*verifkit.SKey) {
 			var err error
 			p := verifkit.Guard(func() { sv, err = ct.NewSignatureVerifier(k.pub) })
 			got := outcome(err, p)
-			kind := k.kind
-			c.out.T(fmt.Sprintf("nv %s %d %s %s", kind, k.bits, verifkit.B(k.p256), verifkit.B(allow)), got)
+			c.out.T(fmt.Sprintf("nv %s %d %s %s %d", k.kind, k.bits, verifkit.B(k.p256), verifkit.B(allow), k.tok), got)
 			c.out.Count("class:policy")
+			if k.tok != 0 {
+				// outside the property; what must still hold: no verifier for a key type RFC 6962 does not define
+				c.out.Count("class:policy-degenerate-key:" + got)
+				if k.kind == "dsa" && got != "err" {
+					c.out.Fail(fmt.Sprintf("nv degenerate kind=%s tok=%d allow=%v", k.kind, k.tok, allow), got)
+				}
+				continue
+			}
 			want := (k.kind == "rsa" && (k.bits >= 2048 || allow)) || (k.kind == "ecdsa" && (k.p256 || allow))
 			if (got == "ok") != want || p != "" || (got == "ok") != (sv != nil) || (sv != nil && sv.PubKey != k.pub) {
 				c.out.Fail(fmt.Sprintf("nv kind=%s bits=%d p256=%v allow=%v", k.kind, k.bits, k.p256, allow),
@@ -574,7 +590,7 @@ func (c *c05) signedObjects(keys []*verifkit.SKey) {
 	ct.AllowVerificationWithNonCompliantKeys = true
 	defer func() { ct.AllowVerificationWithNonCompliantKeys = saved }()
 	r := c.r
-	rounds := verifkit.N(6, 120)
+	rounds := verifkit.N(8, 120)
 	for _, k := range keys {
 		if k.Kind != "rsa" && k.Kind != "ecdsa" {
 			continue
@@ -602,13 +618,33 @@ func (c *c05) signedObjects(keys []*verifkit.SKey) {
 				func(m *sctCase) { m.ts ^= 1 << uint(r.Intn(64)) },
 				func(m *sctCase) { m.etype ^= 1 },
 				func(m *sctCase) { m.etype = []uint64{2, 0x8000, 0xffff}[r.Intn(3)] },
-				func(m *sctCase) { m.cert = flipBit(m.cert, r.Intn(8*len(m.cert))) },
-				func(m *sctCase) { m.cert = append(append([]byte(nil), m.cert...), 0) },
-				func(m *sctCase) { m.cert = m.cert[:len(m.cert)-1] },
-				func(m *sctCase) { m.tbs = flipBit(m.tbs, r.Intn(8*len(m.tbs))) },
-				func(m *sctCase) { m.tbs = append(append([]byte(nil), m.tbs...), 0) },
-				func(m *sctCase) { m.tbs = m.tbs[:len(m.tbs)-1] },
-				func(m *sctCase) { m.ikh[r.Intn(32)] ^= 1 << uint(r.Intn(8)) },
+				func(m *sctCase) { // the certificate of an X.509 entry, the TBS of a precertificate entry
+					if m.etype == 0 {
+						m.cert = flipBit(m.cert, r.Intn(8*len(m.cert)))
+					} else {
+						m.tbs = flipBit(m.tbs, r.Intn(8*len(m.tbs)))
+					}
+				},
+				func(m *sctCase) {
+					if m.etype == 0 {
+						m.cert = append(append([]byte(nil), m.cert...), 0)
+					} else {
+						m.tbs = append(append([]byte(nil), m.tbs...), 0)
+					}
+				},
+				func(m *sctCase) {
+					if m.etype == 0 {
+						m.cert = m.cert[:len(m.cert)-1]
+					} else {
+						m.tbs = m.tbs[:len(m.tbs)-1]
+					}
+				},
+				func(m *sctCase) { m.etype, m.tbs = 1, flipBit(m.tbs, r.Intn(8*len(m.tbs))) }, // (also the entry type, for an X.509 entry)
+				func(m *sctCase) { m.ts += 1 << 32 },
+				func(m *sctCase) { m.ts-- },
+				func(m *sctCase) { // the issuer key hash of a precertificate entry; for an X.509 entry the unused field (no change: still verifies)
+					m.ikh[r.Intn(32)] ^= 1 << uint(r.Intn(8))
+				},
 				func(m *sctCase) { m.ext = append(append([]byte(nil), m.ext...), 0) },
 				func(m *sctCase) {
 					if len(m.ext) > 0 {
@@ -627,10 +663,10 @@ func (c *c05) signedObjects(keys []*verifkit.SKey) {
 				func(m *sctCase) { m.sig = append(append([]byte(nil), m.sig...), 0x00) },
 				func(m *sctCase) { m.sig = m.sig[:len(m.sig)-1] },
 			}
-			names := []string{"version=1", "version", "ts+1", "ts-bit", "etype-swap", "etype-unknown", "cert-bit", "cert-extended", "cert-shortened", "tbs-bit", "tbs-extended",
-				"tbs-shortened", "ikh-bit", "ext-extended", "ext-bit", "ext-65536", "logid (unsigned)", "hash-other", "hash-unsupported", "alg-other", "alg-unsupported", "sig-bit", "sig-trailing-byte", "sig-shortened"}
+			names := []string{"version=1", "version", "ts+1", "ts-bit", "etype-swap", "etype-unknown", "entry-bit", "entry-extended", "entry-shortened", "tbs-bit(+type)", "ts+2^32",
+				"ts-1", "ikh-bit", "ext-extended", "ext-bit", "ext-65536", "logid (unsigned)", "hash-other", "hash-unsupported", "alg-other", "alg-unsupported", "sig-bit", "sig-trailing-byte", "sig-shortened"}
 			for i, mf := range muts {
-				if !verifkit.Thorough() && it > 0 && r.Intn(3) != 0 {
+				if !verifkit.Thorough() && it > 1 && r.Intn(2) != 0 {
 					continue
 				}
 				m := s
@@ -656,8 +692,13 @@ func (c *c05) signedObjects(keys []*verifkit.SKey) {
 				func(m *sthCase) { m.alg = 1 + (m.alg % 3) },
 				func(m *sthCase) { m.sig = flipBit(m.sig, r.Intn(8*len(m.sig))) },
 				func(m *sthCase) { m.sig = append(append([]byte(nil), m.sig...), 0x7) },
+				func(m *sthCase) { m.hash = []int{0, 7, 8, 255}[r.Intn(4)] },
+				func(m *sthCase) { m.alg = []int{0, 4, 255}[r.Intn(3)] },
+				func(m *sthCase) { m.sig = m.sig[:len(m.sig)-1] },
+				func(m *sthCase) { m.sig = nil },
 			}
-			hn := []string{"version", "ts-bit", "size-bit", "ts-size-swapped", "root-bit", "hash-other", "alg-other", "sig-bit", "sig-trailing-byte"}
+			hn := []string{"version", "ts-bit", "size-bit", "ts-size-swapped", "root-bit", "hash-other", "alg-other", "sig-bit", "sig-trailing-byte",
+				"hash-unsupported", "alg-unsupported", "sig-shortened", "sig-empty"}
 			for i, mf := range hm {
 				m := h
 				mf(&m)
@@ -669,65 +710,207 @@ func (c *c05) signedObjects(keys []*verifkit.SKey) {
 		}
 	}
 
-	// ctutil.VerifySCT over real certificates: X.509 entry and precertificate entry built by the repository, signed here.
-	saved2 := ct.AllowVerificationWithNonCompliantKeys
-	ct.AllowVerificationWithNonCompliantKeys = false
-	defer func() { ct.AllowVerificationWithNonCompliantKeys = saved2 }()
-	for _, pemChain := range []string{testdata.TestCertPEM + testdata.CACertPEM, testdata.TestPreCertPEM + testdata.CACertPEM} {
-		chain, err := x509util.CertificatesFromPEM([]byte(pemChain))
+	c.ctutilPaths(keys)
+	c.nilEntryPointers()
+	c.sizeBoundary()
+}
+
+func c05DER(chain []*x509.Certificate) [][]byte {
+	var o [][]byte
+	for _, x := range chain {
+		o = append(o, x.Raw)
+	}
+	return o
+}
+
+// ctutilPaths: ctutil.VerifySCT (plain and embedded) and LogInfo.VerifySCTSignature over the testdata chains, for EVERY key
+// (the policy refusal is part of the line) and both settings of the opt-in.  The expected entry is derived independently
+// (verifkit.IndependentEntry: standard-library X.509 + own extension stripping), not with the repository's leaf builder.
+func (c *c05) ctutilPaths(keys []*verifkit.SKey) {
+	saved := ct.AllowVerificationWithNonCompliantKeys
+	defer func() { ct.AllowVerificationWithNonCompliantKeys = saved }()
+	type sub struct {
+		name    string
+		pem     string
+		precert bool
+	}
+	for _, sb := range []sub{{"cert", testdata.TestCertPEM + testdata.CACertPEM, false}, {"precert", testdata.TestPreCertPEM + testdata.CACertPEM, true}} {
+		chain, err := x509util.CertificatesFromPEM([]byte(sb.pem))
 		if err != nil {
 			c.out.Fail("ctutil setup", err.Error())
 			continue
 		}
-		for _, k := range keys {
-			etype := ct.X509LogEntryType
-			if chain[0].IsPrecertificate() {
-				etype = ct.PrecertLogEntryType
+		et, cert, ikh, tbs, ok := verifkit.IndependentEntry(c05DER(chain), sb.precert, verifkit.OIDPoison)
+		if !ok {
+			c.out.Fail("ctutil independent entry "+sb.name, "no entry derived")
+			continue
+		}
+		for _, allow := range []bool{false, true} {
+			ct.AllowVerificationWithNonCompliantKeys = allow
+			for _, k := range keys {
+				ts := c05Ts[c.r.Intn(len(c05Ts))]
+				s := sctCase{ts: ts, etype: et, cert: cert, tbs: tbs, hash: 4, alg: sigAlgOf(k)}
+				copy(s.ikh[:], ikh)
+				s.sig = k.Sign(4, verifkit.SCTSigInput(0, ts, et, cert, ikh, tbs, nil))
+				for _, variant := range []string{"genuine", "ts+1", "sig-bit", "hash-other", "alg-other", "version=1", "extensions-added", "loginfo"} {
+					m := s
+					switch variant {
+					case "ts+1":
+						m.ts++
+					case "sig-bit":
+						m.sig = flipBit(m.sig, c.r.Intn(8*len(m.sig)))
+					case "hash-other":
+						m.hash = 1 + (m.hash % 6)
+					case "alg-other":
+						m.alg = 1 + (m.alg % 3)
+					case "version=1":
+						m.version = 1
+					case "extensions-added":
+						m.ext = []byte{1}
+					}
+					sct, _ := m.objects()
+					var verr error
+					var p string
+					if variant == "loginfo" {
+						// LogInfo.VerifySCTSignature overrides the leaf's timestamp with the SCT's
+						p = verifkit.Guard(func() {
+							li, lerr := newLogInfo(&loglist3.Log{Description: "t", Key: k.SPKI}, nil)
+							if lerr != nil {
+								verr = lerr
+								return
+							}
+							etype := ct.X509LogEntryType
+							if sb.precert {
+								etype = ct.PrecertLogEntryType
+							}
+							leaf, lerr := ct.MerkleTreeLeafFromChain(chain, etype, ts^0x77)
+							if lerr != nil {
+								verr = lerr
+								return
+							}
+							verr = li.VerifySCTSignature(sct, *leaf)
+						})
+						if k.SPKI == nil {
+							continue
+						}
+					} else {
+						p = verifkit.Guard(func() { verr = VerifySCT(k.Pub, chain, &sct, false) })
+					}
+					got := outcome(verr, p)
+					constructible := (k.Kind == "rsa" && (k.Bits >= 2048 || allow)) || (k.Kind == "ecdsa" && (k.P256 || allow))
+					v := k.Judge(m.hash, verifkit.SCTSigInput(m.version, m.ts, m.etype, m.cert, m.ikh[:], m.tbs, m.ext), m.sig)
+					exp := "err"
+					if constructible && m.version == 0 && k.Expect(m.hash, m.alg, v) {
+						exp = "ok"
+					}
+					c.out.Count("class:ctutil:" + sb.name + ":" + variant)
+					c.out.Count("outcome:" + got)
+					c.out.T(fmt.Sprintf("vctutil %s %d %s %s %s", vline(k, false, m.hash, m.alg, v, m.sig), k.Bits, verifkit.B(k.P256), verifkit.B(allow), m.fields()), got)
+					if got != exp {
+						c.out.Fail("ctutil "+variant+" "+sb.name+" key="+k.Name, fmt.Sprintf("= %s, the property requires %s (allow=%v)", got, exp, allow))
+					}
+				}
 			}
-			ts := c05Ts[c.r.Intn(len(c05Ts))]
-			leaf, err := ct.MerkleTreeLeafFromChain(chain, etype, ts)
-			if err != nil {
-				c.out.Fail("ctutil leaf", err.Error())
-				continue
+		}
+	}
+
+	// embedded = true: the final certificate of testdata with its embedded SCT, issued by the testdata log key
+	ct.AllowVerificationWithNonCompliantKeys = false
+	chain, err := x509util.CertificatesFromPEM([]byte(testdata.TestEmbeddedCertPEM + testdata.CACertPEM))
+	pub, _, _, kerr := ct.PublicKeyFromPEM([]byte(testdata.LogPublicKeyPEM))
+	if err != nil || kerr != nil {
+		c.out.Fail("ctutil embedded setup", fmt.Sprint(err, kerr))
+		return
+	}
+	logKey := &verifkit.SKey{Name: "testdata-log", Kind: "ecdsa", P256: true, Pub: pub}
+	var emb ct.SignedCertificateTimestamp
+	if _, err := tls.Unmarshal(testdata.TestPreCertProof, &emb); err != nil {
+		c.out.Fail("ctutil embedded setup", err.Error())
+		return
+	}
+	et, cert, ikh, tbs, ok := verifkit.IndependentEntry(c05DER(chain), true, verifkit.OIDSCTList)
+	if !ok {
+		c.out.Fail("ctutil embedded independent entry", "no entry derived")
+		return
+	}
+	for _, variant := range []string{"genuine", "ts+1", "sig-bit"} {
+		sct := emb
+		sct.Signature.Signature = append([]byte(nil), emb.Signature.Signature...)
+		switch variant {
+		case "ts+1":
+			sct.Timestamp++
+		case "sig-bit":
+			sct.Signature.Signature[len(sct.Signature.Signature)-1] ^= 1
+		}
+		var verr error
+		p := verifkit.Guard(func() { verr = VerifySCT(pub, chain, &sct, true) })
+		got := outcome(verr, p)
+		m := sctCase{ts: sct.Timestamp, etype: et, cert: cert, tbs: tbs, ext: sct.Extensions, hash: int(sct.Signature.Algorithm.Hash), alg: int(sct.Signature.Algorithm.Signature), sig: sct.Signature.Signature}
+		copy(m.ikh[:], ikh)
+		v := logKey.Judge(m.hash, verifkit.SCTSigInput(0, m.ts, et, cert, ikh, tbs, m.ext), m.sig)
+		exp := "err"
+		if logKey.Expect(m.hash, m.alg, v) {
+			exp = "ok"
+		}
+		c.out.Count("class:ctutil:embedded:" + variant)
+		c.out.Count("outcome:" + got)
+		c.out.T(fmt.Sprintf("vctutil %s 0 1 0 %s", vline(logKey, false, m.hash, m.alg, v, m.sig), m.fields()), got)
+		if got != exp || (variant == "genuine" && got != "ok") {
+			c.out.Fail("ctutil embedded "+variant, fmt.Sprintf("= %s, the property requires %s", got, exp))
+		}
+	}
+}
+
+// nilEntryPointers: what VerifySCTSignature does with the pointers SerializeSCTSignatureInput does not guard (observation:
+// callers inside the repository always set them; traced against the model, not judged).
+func (c *c05) nilEntryPointers() {
+	k := verifkit.KeyByName("p256")
+	sv, _ := ct.NewSignatureVerifier(k.Pub)
+	for _, ver := range []uint64{0, 1} {
+		for _, which := range []string{"x509", "precert", "te"} {
+			sct := ct.SignedCertificateTimestamp{SCTVersion: ct.Version(ver), Signature: ct.DigitallySigned{Algorithm: tls.SignatureAndHashAlgorithm{Hash: 4, Signature: 3}}}
+			var te *ct.TimestampedEntry
+			switch which {
+			case "x509":
+				te = &ct.TimestampedEntry{EntryType: ct.X509LogEntryType}
+			case "precert":
+				te = &ct.TimestampedEntry{EntryType: ct.PrecertLogEntryType}
 			}
-			s := sctCase{ts: ts, etype: uint64(etype), hash: 4, alg: sigAlgOf(k)}
-			if etype == ct.X509LogEntryType {
-				s.cert = leaf.TimestampedEntry.X509Entry.Data
+			var err error
+			p := verifkit.Guard(func() { err = sv.VerifySCTSignature(sct, ct.LogEntry{Leaf: ct.MerkleTreeLeaf{TimestampedEntry: te}}) })
+			got := outcome(err, p)
+			c.out.T(fmt.Sprintf("vsctnil %s %d %s", k.Kind, ver, which), got)
+			c.out.Count("class:nil-entry-pointer:" + got)
+			if got == "ok" {
+				c.out.Fail("vsctnil "+which, "a nil entry verified")
+			}
+		}
+	}
+}
+
+// sizeBoundary (thorough tier): the 2^24-1 / 2^24 certificate and TBS bounds of RFC 6962, compared with the hand-written
+// layout directly (no trace line: 16 MiB of hex per case).
+func (c *c05) sizeBoundary() {
+	if !verifkit.Thorough() {
+		return
+	}
+	for _, n := range []int{1<<24 - 1, 1 << 24} {
+		for _, et := range []uint64{0, 1} {
+			big := c.r.Bytes(n)
+			s := sctCase{ts: 5, etype: et, cert: []byte{1}, tbs: []byte{1}}
+			if et == 0 {
+				s.cert = big
 			} else {
-				s.ikh = leaf.TimestampedEntry.PrecertEntry.IssuerKeyHash
-				s.tbs = leaf.TimestampedEntry.PrecertEntry.TBSCertificate
-				if want := sha256.Sum256(chain[1].RawSubjectPublicKeyInfo); want != s.ikh {
-					c.out.Fail("ctutil ikh", "issuer key hash of the leaf is not SHA-256 of the issuer's SPKI")
-				}
+				s.tbs = big
 			}
-			in := verifkit.SCTSigInput(0, ts, s.etype, s.cert, s.ikh[:], s.tbs, nil)
-			s.sig = k.Sign(4, in)
-			for _, variant := range []string{"genuine", "ts+1", "sig-bit"} {
-				m := s
-				switch variant {
-				case "ts+1":
-					m.ts++
-				case "sig-bit":
-					m.sig = flipBit(m.sig, c.r.Intn(8*len(m.sig)))
-				}
-				sct, _ := m.objects()
-				var verr error
-				p := verifkit.Guard(func() { verr = VerifySCT(k.Pub, []*x509.Certificate{chain[0], chain[1]}, &sct, false) })
-				got := outcome(verr, p)
-				constructible := (k.Kind == "rsa" && k.Bits >= 2048) || (k.Kind == "ecdsa" && k.P256)
-				v := k.Judge(m.hash, verifkit.SCTSigInput(0, m.ts, m.etype, m.cert, m.ikh[:], m.tbs, nil), m.sig)
-				exp := "err"
-				if constructible && k.Expect(m.hash, m.alg, v) {
-					exp = "ok"
-				}
-				c.out.Count("class:ctutil:" + variant)
-				c.out.Count("outcome:" + got)
-				if constructible {
-					c.out.T("vsct "+vline(k, false, m.hash, m.alg, v, m.sig)+" "+m.fields(), got)
-				}
-				if got != exp {
-					c.out.Fail("ctutil.VerifySCT "+variant+" key="+k.Name, fmt.Sprintf("= %s, the property requires %s", got, exp))
-				}
+			sct, entry := s.objects()
+			want := verifkit.SCTSigInput(0, s.ts, et, s.cert, s.ikh[:], s.tbs, nil)
+			var in []byte
+			var err error
+			p := verifkit.Guard(func() { in, err = ct.SerializeSCTSignatureInput(sct, entry) })
+			c.out.Count(fmt.Sprintf("class:sctin-size-boundary:%d", n))
+			if p != "" || (err == nil) != (want != nil) || (err == nil && string(in) != string(want)) || (want != nil) != (n < 1<<24) {
+				c.out.Fail(fmt.Sprintf("sctin size-boundary len=%d etype=%d", n, et), fmt.Sprintf("err=%v panic=%q, RFC layout exists=%v", err, p, want != nil))
 			}
 		}
 	}
